@@ -621,6 +621,24 @@ func (c *c10) Generate(cx *Ctx, chunk int) []*Item {
 	for i := 0; i < n; i++ {
 		g := &c10Gen{r: cx.Rng(fmt.Sprintf("c10/%d", i))}
 		cl, binds := g.clause()
+		if i%25 == 11 {
+			// a clause with MANY distinct variables, each occurring again (sharing must survive whatever table the compiler keeps)
+			nv := []int{15, 16, 17, 18, 19, 24, 32, 33, 40, 65}[g.r.Intn(10)]
+			vs := make([]*term.Term, nv)
+			for k := range vs {
+				vs[k] = term.V(int64(k))
+			}
+			back := make([]*term.Term, nv)
+			for k := range back {
+				back[k] = vs[nv-1-k]
+			}
+			head := term.C("p", &term.Term{K: term.KCmp, S: "w", Args: vs}, &term.Term{K: term.KCmp, S: "r", Args: back})
+			cl, binds = head, map[int64]*term.Term{}
+			if g.r.Intn(2) == 0 {
+				k1, k2 := g.r.Intn(nv), g.r.Intn(nv)
+				cl = term.C(":-", head, term.C(",", term.C("m", vs[k1]), term.C("=", vs[k2], vs[nv-1])))
+			}
+		}
 		bound := applyBinds(cl, binds)
 		head := bound
 		if bound.IsCmp(":-", 2) {
